@@ -37,7 +37,12 @@ func DateRanges(src search.DateValuesSource) *DateRangeAggregation {
 }
 
 func (a *DateRangeAggregation) Fields() []string {
-	return a.src.Fields()
+	rv := a.src.Fields()
+	// the fields of the nested aggregations have to be loaded as well
+	for _, agg := range a.aggregations {
+		rv = append(rv, agg.Fields()...)
+	}
+	return rv
 }
 
 func (a *DateRangeAggregation) AddRange(rang *DateRange) *DateRangeAggregation {
